@@ -82,6 +82,9 @@ CLAIMED.update({
 CLAIMED["C04"]["level"] = "fault_enumeration"
 CLAIMED["C04"]["tech"] += "; plus crash enumeration at every API call of an end-to-end run (all controllers) with restart and quiescence"
 CLAIMED["C04"]["text"] += " End to end: the cron worker, cron reconciler, queue/job/jobconfig controllers run three schedule times; a process crash is injected at every API call of the fault-free run (29 calls), all in-memory state is discarded, controllers restart from the API and run to quiescence: every schedule time later than the lastScheduled persisted at the crash must have exactly one Job, none may be missing at or before it, none extra."
+for _p in ("C03", "C05", "C09", "C15", "C16", "C19"):
+    CLAIMED[_p]["tech"] += "; the thorough tier adds a separate free-running `go test -race` pass of the same bodies (real goroutines, work queues and informers over client-go fakes) that backs the explorer's scheduling-point assumption - auxiliary, sampled, a data race in the property's code is reported as monitor=data-race"
+CLAIMED["C01"]["tech"] = CLAIMED["C01"]["tech"].replace("(6 tick lengths, depth 5/6-7)", "(6 tick lengths, depth 5; thorough: breadth-first search over the states (instant, heap content, reference cursors) reached by 7 tick lengths to depth 7/8, every tick from every state, merged sequences re-validated against the recorded futures)")
 CLAIMED["C04"]["note"] = "A crash before the first-ever schedule time was recorded loses that time by design (never scheduled => not back-scheduled); counted in the evidence, not reported."
 PENDING_REASON = "check not built yet in this session (planned, see DESIGN.md section 4)"
 
